@@ -380,6 +380,20 @@ pub fn run_cuts_with(data: &[u8], mode: Mode, buf_len: usize, base_flags: u32, c
 pub const REUSE_KINDS: [&str; 3] = ["after-other-format", "after-abandoned", "after-failed"];
 
 pub fn reuse_history_bytes(kind: usize, zlib_next: bool) -> (Vec<u8>, u32) {
+    static CACHE: std::sync::OnceLock<Vec<(Vec<u8>, u32)>> = std::sync::OnceLock::new();
+    let c = CACHE.get_or_init(|| {
+        let mut v = vec![];
+        for k in 0..3 {
+            for z in [false, true] {
+                v.push(reuse_history_bytes_uncached(k, z));
+            }
+        }
+        v
+    });
+    c[kind.min(2) * 2 + zlib_next as usize].clone()
+}
+
+fn reuse_history_bytes_uncached(kind: usize, zlib_next: bool) -> (Vec<u8>, u32) {
     let text: Vec<u8> = b"previous stream, previous stream, previously streamed: 0123456789 abcdefghijklmnopqrstuvwxyz".iter().cycle().take(700).cloned().collect();
     match kind {
         0 => {
